@@ -4,6 +4,7 @@ import (
 	"context"
 	"encoding/json"
 	"fmt"
+	"io"
 	"strconv"
 	"strings"
 	"unicode/utf8"
@@ -108,7 +109,14 @@ func (self ValueString) Fields() (map[string]*Value, *Interrupt) {
 			// Keep numbers as written: `1.0` is a float, `9007199254740993` an exact int.
 			decoder := json.NewDecoder(strings.NewReader(self.Inner))
 			decoder.UseNumber()
-			if err := decoder.Decode(&raw); err != nil {
+			err := decoder.Decode(&raw)
+			if err == nil {
+				// The decoder stops behind the first value: nothing but whitespace may follow it.
+				if _, trailing := decoder.Token(); trailing != io.EOF {
+					err = fmt.Errorf("unexpected data after top-level value")
+				}
+			}
+			if err != nil {
 				return nil, NewThrowInterrupt(span, fmt.Sprintf("JSON parse error: %s", err.Error()))
 			}
 			value, i := unmarshalValue(span, raw)
